@@ -11,7 +11,7 @@ from ..aggen import node, snapshot
 
 PROPERTY = 'C12'
 RULE = ('hand-built attack graphs (mirrored edges incl. cycles, self-loops and multi-edges, arbitrary viability / '
-        'necessity labels, suppress tags, defenses with status {0,0.5,1}) with 1-3 attackers and a sequence of '
+        'necessity labels, suppress tags, defenses with status {0,0.5,1}) with 1-3 attackers (also graphs generated from G_lang x G_model, attackers attached, labelled by the analyser) and a sequence of '
         'compromise batches; exhaustive: all 3-node graphs over a reduced alphabet x all compromise subsets. '
         'Oracle: definitional reference for traversability (every node x attacker), attack surface (as a set; the '
         'returned list must be duplicate-free), defense surface, enabled defenses; after each batch '
@@ -45,7 +45,25 @@ def _surface(a):
 def check_case(case) -> Outcome:
     from maltoolbox.attackgraph import query
     out = Outcome()
-    g, objs, atts = aggen.build(case['graph'])
+    if 'graph' in case:
+        g, objs, atts = aggen.build(case['graph'])
+    else:
+        # generated from a language and a model, attackers attached, labelled by the analyser
+        from .c01 import generate_graph
+        from maltoolbox.attackgraph.analyzers.apriori import calculate_viability_and_necessity
+        lg, model, mobjs, g, err, msg = generate_graph(case['spec'], case['model'])
+        if err:
+            out.classes.append('skipped:' + err)
+            return out
+        try:
+            g.attach_attackers()
+            calculate_viability_and_necessity(g)
+        except Exception as e:
+            out.classes.append('skipped:prepare:' + type(e).__name__)
+            return out
+        objs, atts = list(g.nodes), list(g.attackers)
+        if not objs:
+            return out
     interesting = False
 
     def partial_and():
@@ -135,6 +153,16 @@ def cases(draw):
     return {'graph': g, 'batches': batches}
 
 
+@st.composite
+def generated_cases(draw):
+    from ..modelgen import lang_and_model
+    c = draw(lang_and_model({'max_assets': 4, 'max_expr_depth': 2, 'arith_ttc': False},
+                            {'max_assets': 5, 'attackers': True, 'min_assets': 1}))
+    small = st.integers(0, 40)
+    c['batches'] = draw(st.lists(st.tuples(small, st.lists(small, min_size=1, max_size=3)).map(list), max_size=4))
+    return c
+
+
 def _enum(tier):
     variants = [node('or', viable=True, necessary=True), node('or', viable=True, necessary=False),
                 node('and', viable=True, necessary=True), node('and', viable=False, necessary=True),
@@ -164,4 +192,5 @@ CLAUSES = [
     Clause('three-node-graphs', check_case, kind='exhaustive', enumerate=_enum,
            space='all 3-node graphs over 6 node variants x all 2^9 edge sets x all non-empty compromise subsets (quick tier: every 6th graph)'),
     Clause('random', check_case, kind='random', strategy=cases, budget={'quick': 12000, 'thorough': 120000}),
+    Clause('generated-graphs', check_case, kind='random', strategy=generated_cases, budget={'quick': 1500, 'thorough': 15000}),
 ]
